@@ -73,6 +73,15 @@ def gen_case(rng, tier):
         sessions.append(stmts)
         sess_m.append(ms)
     mode = rng.choice([{"atomic": True}, {"atomic": True}, {"threads": 4}])
+    if rng.random() < 0.15:
+        # racing DDL: every session opens with the same DROP (of an existing table) or CREATE (of a missing one), on worker threads:
+        # all of them bind while the statement is still legal, exactly one may win
+        t = rng.choice([1, 2])
+        first = (f"drop table t{t}", ("drop", t)) if t in exists0 else (f"create table t{t}(a int)", ("create", t))
+        for stmts, ms in zip(sessions, sess_m):
+            stmts.insert(0, first[0])
+            ms.insert(0, first[1])
+        mode = {"threads": 4}
     ticks = rng.choice([0, 2, 3]) if "atomic" in mode else 0      # compactor passes running while the sessions run
     opts = {"rowset": 4000} if big else {}
     return {"pre": pre, "pre_m": pre_m, "sessions": sessions, "sess_m": sess_m, "engine": rng.choice(["disk", "disk", "mem"]), "mode": mode, "opts": opts, "ticks": ticks}
